@@ -256,8 +256,14 @@ def check_provenance_entry(R, prog):
     # the helper: first free index
     ad = prog.func(SUB, "add_description")
     ok = first_free_idiom(ad.node.body, ad.params[0] + ".header", ad.params[1])
-    if ok is True:
+    sem = semantic_add_description(ad)
+    if sem[0] is False:
+        R.bad(F("PROVENANCE-ENTRY", ad, "add_description meaning", sem[1]))
+    elif ok is True:
         R.ok("PROVENANCE-ENTRY", "add_description: entry stored under the first free 'transformation <i>' key, i from 1", ad.key)
+    elif sem[0] is True:
+        R.ok("PROVENANCE-ENTRY", "add_description: %s" % sem[1], ad.key)
+        R.unknown("PROVENANCE-ENTRY", "add_description index", ad.key, "shape not recognised (%s); the meaning of the fragment was confirmed by folding" % str(ok)[:100])
     else:
         R.bad(F("PROVENANCE-ENTRY", ad, "add_description index", str(ok)))
     for fi in transformations(prog):
@@ -312,10 +318,49 @@ def check_provenance_entry(R, prog):
         else:
             # inline idiom (Shuffle)
             ok = first_free_idiom(fi.node.body, out + ".header", None, cfg=cfg, fnode=fi.node)
+            if ok is not True and fi.name == "Shuffle":
+                from . import c09 as _c09
+                sem = _c09.shuffle_verdict(prog)           # compares the header of the result, too
+                if sem[0] is True:
+                    R.ok("PROVENANCE-ENTRY", "Shuffle: %s" % sem[1], fi.key)
+                    R.unknown("PROVENANCE-ENTRY", "Shuffle provenance entry", fi.key,
+                              "shape not recognised (%s); the meaning of the fragment was confirmed by folding" % str(ok)[:100])
+                    continue
             if ok is True:
                 R.ok("PROVENANCE-ENTRY", "%s: entry stored under the first free index; the index is not rebound before use" % fi.name, fi.key)
             else:
                 R.bad(F("PROVENANCE-ENTRY", fi, "%s provenance entry" % fi.name, str(ok)))
+
+
+def semantic_add_description(ad):
+    """fold add_description over headers with every occupancy pattern of 'transformation 1..4' (and unrelated keys): afterwards the header
+    is the old one plus the text under the first free index"""
+    import itertools
+    import types
+    from ..fold import Folder, Raised
+    from ..ql import Unknown
+    n = 0
+    for occ in itertools.product([False, True], repeat=4):
+        old = {"description": "d", "transformation x": "y"}
+        old.update({"transformation %d" % (i + 1): "t%d" % i for i, o in enumerate(occ) if o})
+        Fobj = types.SimpleNamespace(header=dict(old))
+        f = Folder(env={})
+        try:
+            f.call_function(ad.node, [Fobj, "TEXT"], {})
+        except Raised as r:
+            return False, "add_description raises %s on the header %s" % (r.cls, old)
+        except Unknown as e:
+            return None, "cannot fold add_description: %s" % e
+        k = 1
+        while "transformation %d" % k in old:
+            k += 1
+        want = dict(old)
+        want["transformation %d" % k] = "TEXT"
+        if Fobj.header != want:
+            return False, ("on the header %s add_description leaves %s; the text must be stored under 'transformation %d', the first free "
+                           "index, and nothing else may change" % (old, Fobj.header, k))
+        n += 1
+    return True, "%d header occupancy patterns folded: the text lands under the first free index" % n
 
 
 def template(e):
